@@ -119,17 +119,25 @@ func main() {
 	}
 	r := vh.NewRand(f.Seed)
 	g := &scangen.Gen{R: r, Corpus: scangen.LoadCorpus(0), Stat: o.Count}
+	// exhaustive small scope over the symbols that drive the hidden state (nParen, insertSemi)
+	depth := 4
 	if f.Tier == "thorough" {
+		depth = 6
 		scangen.Exhaustive([]string{"1", "k", " ", "\n", "*", "/", "#", ".", "!", "(", ")", "a"}, 4, func(b []byte) { one(b, 1) })
 	}
+	scangen.Exhaustive(scangen.StateAlphabet, depth, func(b []byte) { one(b, 1) })
+	o.Stats["exhaustive_state_depth"] = depth
 	for i := 0; i < f.N; i++ {
 		rr := r.Fork(i)
 		g.R = rr
 		var src []byte
 		switch p := rr.Intn(100); {
-		case p < 60:
+		case p < 45:
 			o.Count("src_shared_sequence")
 			src = sharedSequence(rr)
+		case p < 60:
+			o.Count("src_state_probe")
+			src = g.StateProbe(false)
 		case p < 70:
 			o.Count("src_shared_sequence_mutated")
 			src = g.Mutate(sharedSequence(rr))
